@@ -233,7 +233,7 @@ def repl_accessor(ctx):
         if g is None:
             d[nm + "|missing"] = [False, nm + " missing", None]
             continue
-        F = "RefCell::borrow(a1.state).capture_state.%s" % fld
+        F = "a1.state.capture_state.%s" % fld
         rows = set()
         for p in ctx.walk(g).paths:
             gs, r = summarize(p)
